@@ -213,12 +213,12 @@ def exhaustive_single(tier):
         for io in range(n):
             for it in range(n):
                 lawful = ib == io or ib == it or io == it
-                # quick: all lawful triples over the first 8 states, a third of the rest
                 if tier == "quick":
-                    if max(ib, io, it) >= 8 and (ib + 3 * io + 5 * it) % 7:
+                    # every law-shaped triple over the first 7 states, a fifth of the other triples over them
+                    if max(ib, io, it) >= 7 or (not lawful and (ib + 2 * io + 3 * it) % 5):
                         continue
-                    if not lawful and (ib + io + it) % 3:
-                        continue
+                elif not lawful and (ib + io + it) % 2:
+                    continue
                 k += 1
                 t = lambda i: ctx + ([st[i]] if st[i] else [])
                 yield mk("2a", ["merge3", "weave", "lca"][k % 3], t(ib), t(it), t(io), tag="single")
@@ -228,7 +228,7 @@ def cases(rng, tier):
     quick = tier == "quick"
     yield from exhaustive_single(tier)
     fids = [1, 2, 3, 4, 5, 6]
-    nrand = 60 if quick else 700
+    nrand = 30 if quick else 150
     for i in range(nrand * 6):
         law = ["l1", "l2", "l3", "l4", "l4", "gen"][i % 6]
         mtype = ["merge3", "weave", "lca"][(i // 6) % 3]
@@ -254,8 +254,26 @@ def cases(rng, tier):
         else:
             this, other = edit(rng, base, allf, rng.randint(1, 3)), edit(rng, base, allf, rng.randint(1, 3))
         yield mk("2a", mtype, base, this, other, tag=law)
+    # git trees (merge3 only; identity = path)
+    gf = sorted(GIT_PATHS)
+    for i in range((10 if quick else 60) * 5):
+        law = ["l1", "l2", "l3", "l4", "gen"][i % 5]
+        base = gen_git_tree(rng)
+        if law == "l1":
+            this, other = edit_git(rng, base, gf, rng.randint(1, 3)), base
+        elif law == "l2":
+            this, other = base, edit_git(rng, base, gf, rng.randint(1, 3))
+        elif law == "l3":
+            this = other = edit_git(rng, base, gf, rng.randint(1, 3))
+        elif law == "l4":
+            rng.shuffle(gf)
+            k = rng.randint(1, len(gf) - 1)
+            this, other = edit_git(rng, base, gf[:k], rng.randint(1, 3)), edit_git(rng, base, gf[k:], rng.randint(1, 3))
+        else:
+            this, other = edit_git(rng, base, gf, rng.randint(1, 3)), edit_git(rng, base, gf, rng.randint(1, 3))
+        yield mk("git", "merge3", base, this, other, tag="g" + law)
     # criss-cross histories: Merge3Merger runs _entries_lca / _lca_multi_way
-    for i in range((40 if quick else 500) * 5):
+    for i in range((16 if quick else 100) * 5):
         law = ["l1", "l2", "l3", "l4", "gen"][i % 5]
         mtype = ["merge3", "weave", "lca"][(i // 5) % 3]
         base = gen_tree(rng, fids)
@@ -282,6 +300,19 @@ def cases(rng, tier):
         yield mk("2a", mtype, base, this, other, lcas=[l1, l2], tag="x" + law)
 
 
+# candidate findings (notes/C17.md)
+# OTHER turns directory 1 into a file, THIS adds a file inside it: MalformedTransform instead of a conflict
+WITNESS_NONDIR = mk("2a", "merge3", [E(1, 0, "x", "d")], [E(1, 0, "x", "d"), E(3, 1, "a", "f", b"q\n")],
+                    [E(1, 0, "x", "f", b"q\n")], tag="l4-nondir")
+# git: OTHER deletes the only file of directory x, THIS adds another file there: conflict reported on "x"
+WITNESS_GITDIR = mk("git", "merge3", [E(1, 0, "a", "f", b"1-1\n"), E(3, 0, "x/a", "f", b"3-1\n3-2\n")],
+                    [E(1, 0, "a", "f", b"1-1\n"), E(3, 0, "x/a", "f", b"3-1\n3-2\n"), E(4, 0, "x/b", "f", b"4-1\n4-2\n")],
+                    [E(1, 0, "a", "f", b"1-1\n")], tag="gl4-emptied-dir")
+# THIS deleted directory 1 and its file, OTHER renamed the file inside it: NoFinalPath (not a law-shaped triple)
+WITNESS_NOFINALPATH = mk("2a", "merge3", [E(1, 0, "x", "d"), E(3, 1, "a", "f", b"q\n")], [],
+                         [E(1, 0, "x", "d"), E(3, 1, "b", "f", b"q\n")], tag="gen-nofinalpath")
+
+
 def corpus():
     d, f = E(1, 0, "x", "d"), E(3, 0, "a", "f", TEXTS[0], True)
     return [
@@ -294,6 +325,7 @@ def corpus():
         # text conflict and clean text merge
         mk("2a", "merge3", [f], [E(3, 0, "a", "f", TEXTS[3], True)], [E(3, 0, "a", "f", TEXTS[4], False)], tag="tc"),
         mk("2a", "weave", [f], [E(3, 0, "a", "f", TEXTS[1], True)], [E(3, 0, "b", "f", TEXTS[2], False)], tag="tm"),
+        WITNESS_NONDIR, WITNESS_GITDIR, WITNESS_NOFINALPATH,
     ]
 
 
@@ -502,6 +534,8 @@ def impl(inp):
         _goto(wt, rb)
         rt = _commit(wt, inp["this"], "this")
     repo = wt.branch.repository
+    if _read(wt) != tlist(tdict(inp["this"])):
+        raise AssertionError("working tree is not THIS before the merge")
     other_tree = repo.revision_tree(ro)
     # is_unmodified (same last-changed revision as some LCA entry): data of the input trees
     unm = []
@@ -551,8 +585,200 @@ def _obs_tree(t):
     return [[e[0], e[1], e[2], Tag(KIND[e[3]]), bytes(e[4]), bool(e[5])] for e in tlist(tdict(t))]
 
 
+# ---- git trees: identity is the path (contents are chosen per path so that dulwich's rename detection
+# never pairs two paths); directories are implicit, so the abstract tree is flat: one entry per file path,
+# parent 0, name = the whole path.
+GIT_PATHS = {1: "a", 2: "b", 3: "x/a", 4: "x/b", 5: "y/a"}
+GIT_FID = {v: k for k, v in GIT_PATHS.items()}
+
+
+def git_texts(f):
+    t = b"%d" % f
+    ls = [t + b"-1\n", t + b"-2\n", t + b"-3\n", t + b"-4\n", t + b"-5\n"]
+    j = b"".join
+    return [j(ls), j([t + b"-0\n"] + ls), j(ls + [t + b"-6\n"]), j(ls[:2] + [t + b"-X\n"] + ls[3:]),
+            j(ls[:2] + [t + b"-Y\n"] + ls[3:])]
+
+
+def git_entry(rng, f):
+    k = rng.choice("ffffl")
+    if k == "f":
+        return E(f, 0, GIT_PATHS[f], "f", rng.choice(git_texts(f)), rng.random() < 0.3)
+    return E(f, 0, GIT_PATHS[f], "l", b"t%d-%d" % (f, rng.randint(1, 2)))
+
+
+def gen_git_tree(rng):
+    return [git_entry(rng, f) for f in sorted(GIT_PATHS) if rng.random() < 0.7]
+
+
+def edit_git(rng, tree, fids, nops):
+    d = tdict(tree)
+    for _ in range(nops):
+        f = rng.choice(fids)
+        op = rng.choice(["del", "mod", "mod", "exe", "kind", "add"])
+        if f not in d:
+            if op in ("add", "mod", "kind"):
+                d[f] = git_entry(rng, f)
+            continue
+        e = d[f]
+        if op == "del":
+            del d[f]
+        elif op == "mod":
+            d[f] = E(f, 0, e[2], e[3], rng.choice(git_texts(f)) if e[3] == "f" else b"t%d-%d" % (f, rng.randint(1, 2)), e[5])
+        elif op == "exe" and e[3] == "f":
+            e[5] = not e[5]
+        elif op == "kind":
+            n = git_entry(rng, f)
+            d[f] = n
+    return tlist(d)
+
+
+def _git_fresh():
+    import breezy.git  # noqa
+    from breezy import controldir
+    _state["n"] += 1
+    d = os.path.join(_scratch(), "git%d" % _state["n"])
+    wt = controldir.ControlDir.create_standalone_workingtree(
+        d, format=controldir.format_registry.make_controldir("git"))
+    with open(os.path.join(d, "seed"), "wb") as f:
+        f.write(b"seed %d\n" % _state["n"])
+    wt.add(["seed"])
+    wt.commit("root")
+    _state["gwt"], _state["guses"] = wt, 0
+    return wt
+
+
+def _git_set(wt, spec):
+    base = wt.basedir
+    with wt.lock_tree_write():
+        paths = [p for p, e in wt.iter_entries_by_dir() if p not in ("", "seed") and e.kind != "directory"]
+        if paths:
+            wt.unversion(paths)
+    for n in os.listdir(base):
+        if n in (".git", "seed"):
+            continue
+        p = os.path.join(base, n)
+        if os.path.isdir(p) and not os.path.islink(p):
+            shutil.rmtree(p)
+        else:
+            os.unlink(p)
+    ps = []
+    for e in tlist(tdict(spec)):
+        ap = os.path.join(base, e[2])
+        os.makedirs(os.path.dirname(ap), exist_ok=True)
+        if e[3] == "f":
+            with open(ap, "wb") as fh:
+                fh.write(e[4])
+            os.chmod(ap, 0o755 if e[5] else 0o644)
+        else:
+            os.symlink(e[4].decode(), ap)
+        ps.append(e[2])
+    if ps:
+        wt.add(ps)
+
+
+def _git_read(tree):
+    """-> (entries, directories)"""
+    out, dirs = [], []
+    with tree.lock_read():
+        for p, e in tree.iter_entries_by_dir():
+            if p in ("", "seed"):
+                continue
+            if e.kind == "directory":
+                dirs.append(p)
+                continue
+            stem, suf = p, ""
+            for s in (".OTHER", ".THIS"):
+                if p.endswith(s) and p[:-len(s)] in GIT_FID:
+                    stem, suf = p[:-len(s)], s
+            if stem not in GIT_FID:
+                raise AssertionError("unexpected versioned path %r" % p)
+            if e.kind == "file":
+                out.append([GIT_FID[stem], 0, p, "f", tree.get_file_text(p), bool(tree.is_executable(p))])
+            elif e.kind == "symlink":
+                out.append([GIT_FID[stem], 0, p, "l", tree.get_symlink_target(p).encode(), False])
+            else:
+                raise AssertionError("unexpected kind %r" % e.kind)
+    return sorted(out), dirs
+
+
+def _git_commit(wt, spec, msg):
+    _git_set(wt, spec)
+    rev = wt.commit(msg)
+    got, _ = _git_read(wt.branch.repository.revision_tree(rev))
+    if got != tlist(tdict(spec)):
+        raise AssertionError(f"git tree builder: committed {got!r} for {spec!r}")
+    return rev
+
+
 def _impl_git(inp):
-    raise NotImplementedError
+    from breezy import merge as _merge
+    from breezy.transform import NoFinalPath as _NoFinalPath, MalformedTransform as _Malformed
+    wt = _state.get("gwt")
+    if wt is None or _state.get("guses", 99) >= 25 or not os.path.isdir(wt.basedir):
+        _scratch()
+        wt = _git_fresh()
+    _state["guses"] += 1
+    try:
+        wt.set_conflicts([])
+        wt.set_parent_ids([wt.last_revision()])
+        rb = _git_commit(wt, inp["base"], "base")
+    except Exception:
+        wt = _git_fresh()                 # stale state from an earlier case: rebuild once in a fresh tree
+        rb = _git_commit(wt, inp["base"], "base")
+    ro = _git_commit(wt, inp["other"], "other")
+    wt.branch.generate_revision_history(rb)
+    wt.set_parent_ids([rb])
+    rt = _git_commit(wt, inp["this"], "this")
+    # side finding (notes/C17.md): committing a file<->symlink kind change in a git working tree drops the path
+    # from the index; re-add so that the working tree really is THIS before merging
+    wt = wt.controldir.open_workingtree()
+    _state["gwt"] = wt
+    got, _ = _git_read(wt)
+    if got != tlist(tdict(inp["this"])):
+        have = {e[2] for e in got}
+        wt.add([e[2] for e in tlist(tdict(inp["this"])) if e[2] not in have])
+        wt = wt.controldir.open_workingtree()
+        _state["gwt"] = wt
+        got, _ = _git_read(wt)
+        if got != tlist(tdict(inp["this"])):
+            raise AssertionError(f"git working tree is {got!r}, not THIS")
+    other_tree = wt.branch.repository.revision_tree(ro)
+    tab = _text_table(inp, wt, other_tree, "merge3")
+    _cache[_key(inp)] = ([], tab)
+    try:
+        with wt.lock_write():
+            m = _merge.Merger.from_revision_ids(wt, ro)
+            if m.base_rev_id != rb or m._is_criss_cross:
+                raise RuntimeError("git base selection differs from the built history")
+            m.merge_type = _merge.Merge3Merger
+            cooked = m.do_merge()
+    except AssertionError:
+        _state["guses"] = 99
+        return Err("AssertionError")
+    except _Malformed:
+        _state["guses"] = 99
+        return Err("MalformedTransform")
+    except _NoFinalPath:
+        _state["guses"] = 99
+        return Err("NoFinalPath")
+    wt2 = wt.controldir.open_workingtree()
+    entries, dirs = _git_read(wt2)
+    cs = []
+    for c in cooked:
+        p = c.path
+        for s in (".OTHER", ".THIS"):
+            if p.endswith(s) and p[:-len(s)] in GIT_FID:
+                p = p[:-len(s)]
+        if p in GIT_FID:
+            cs.append([GIT_FID[p], Tag(c.typestring)])
+        elif c.path in dirs or c.path in ("x", "y"):
+            cs.append([-2, Tag(c.typestring)])          # a conflict reported on an (implicit) directory
+        else:
+            raise AssertionError(f"conflict on unexpected path {c!r}")
+    if cs:
+        _state["guses"] = 99              # leftovers of conflicts confuse later index updates: start afresh
+    return [_obs_tree(entries), sorted(cs)]
 
 
 def impl_obs(inp, obs):
@@ -564,7 +790,9 @@ def impl_obs(inp, obs):
     if any(str(c[1]) in FS_TYPES for c in obs[1]):
         return Tag("fs-conflict")
     rank = {"path conflict": 0, "contents conflict": 1, "text conflict": 1}
-    return [obs[0], sorted(obs[1], key=lambda c: (c[0], rank.get(str(c[1]), 9)))]
+    # git: conflicts reported on implicit directories (candidate finding C17-git-emptied-dir) are outside the flat model
+    cs = [c for c in obs[1] if c[0] != -2]
+    return [obs[0], sorted(cs, key=lambda c: (c[0], rank.get(str(c[1]), 9)))]
 
 
 # ---------------------------------------------------------------- model term
@@ -606,6 +834,8 @@ def oracle(inp, obs):
         if not wf(want):
             if isinstance(obs, list) and not obs[1]:
                 return "the union of the changes is not a tree, yet no conflict was reported"
+            if isinstance(obs, Err):
+                return f"disjoint changes whose union is not a tree must give conflicts; merge failed with {obs}"
             return None
     else:
         return None
@@ -616,6 +846,24 @@ def oracle(inp, obs):
     if obs[0] != _obs_tree(want):
         return f"{law}; got {obs[0]!r}, wanted {_obs_tree(want)!r}"
     return None
+
+
+def finding_matches(fid, inp, obs, why):
+    db, dt, do = tdict(inp["base"]), tdict(inp["this"]), tdict(inp["other"])
+    if fid == "C17-nondir-parent-crash":
+        return (inp["fmt"] == "2a" and obs == Err("MalformedTransform")
+                and any(f in do and db[f][3] == "d" and do[f][3] == "f" and any(e[1] == f for e in dt.values())
+                        for f in db))
+    if fid == "C17-git-emptied-dir-conflict":
+        if inp["fmt"] != "git" or not isinstance(obs, list) or not obs[1] or any(c[0] != -2 for c in obs[1]):
+            return False
+        # some directory lost all its BASE files in OTHER while THIS has a file there that BASE had not
+        def dirs(d):
+            return {e[2].rsplit("/", 1)[0] for e in d.values() if "/" in e[2]}
+        return any(x in dirs(db) and x not in dirs(do)
+                   and any(e[2].startswith(x + "/") and f not in db for f, e in dt.items())
+                   for x in dirs(dt))
+    return False
 
 
 def nontrivial(inp, obs):
